@@ -110,10 +110,10 @@ func (c *checkCtx) writeEvidence(bt *batch, xp *xprocResult, reports []report, v
 			"map_sites_executed": siteName(mapSeen), "map_sites_with_2plus_entries": siteName(mapMulti), "map_sites_uncontrolled": siteName(mapUnctl)},
 		"components":      componentsFor(c.ID),
 		"workers":         bt.WorkersN,
-		"worker_restarts": bt.Restarts,
-		"ref_entries":     refComputed,
-		"build_s":         c.Build.BuildS,
-		"race_build":      c.Plan.Race,
+		"worker_restarts": bt.Restarts, "workers_killed_from_outside_and_rerun": bt.KilledFromOutside, "workers_recycled_for_memory": bt.Recycled,
+		"ref_entries": refComputed,
+		"build_s":     c.Build.BuildS,
+		"race_build":  c.Plan.Race,
 	}
 	if c.ID == "C18" {
 		table, tableDone := 6600, 0
